@@ -130,6 +130,10 @@ func (s *scopeGen) function(lvl int, tag string) (ast.FuncLit, *fnInfo) {
 		ss = append(ss, s.guardCall(tag+"->"+inner, ast.Assign{Name: res, Value: ast.Call{Fn: inner, Args: args}})...)
 		result = append(result, call("toa", name(res)))
 		if r.Chance(1, 2) {
+			// grow the stack while this frame (and the closure's frame header) is live
+			ss = append(ss, ast.Assign{Name: s.fresh("zd"), Value: call("zdeep", ast.IntLit{V: int64(r.Range(40, 500))})})
+		}
+		if r.Chance(1, 2) {
 			// update a variable the inner function may capture, then call it again: sharing until return
 			n := s.names[r.Intn(len(s.names))]
 			if roles[n] != 4 && roles[n] != 5 {
@@ -172,6 +176,11 @@ func ScopeProgram(r *core.Rng) []ast.Node {
 		}
 	}
 	stmts = append(stmts, ast.Assign{Name: "zdeep", Value: ast.FuncLit{Params: []string{"q"}, Body: ast.If{Cond: ast.Binary{Op: "<=", L: name("q"), R: ast.IntLit{V: 0}}, Then: ast.IntLit{V: 0}, Else: ast.Binary{Op: "+", L: ast.IntLit{V: 1}, R: call("zdeep", ast.Binary{Op: "-", L: name("q"), R: ast.IntLit{V: 1}})}}}})
+	stmts = append(stmts,
+		ast.Assign{Name: "zcz", Value: ast.FuncLit{Params: []string{"fn"}, Body: ast.Call{Fn: "fn"}}},
+		ast.Assign{Name: "zco", Value: ast.FuncLit{Params: []string{"fn", "p"}, Body: ast.Call{Fn: "fn", Args: []ast.Node{name("p")}}}},
+		ast.Assign{Name: "zct", Value: ast.FuncLit{Params: []string{"fn", "p", "q"}, Body: ast.Call{Fn: "fn", Args: []ast.Node{name("p"), name("q")}}}},
+		ast.Assign{Name: "zch", Value: ast.FuncLit{Params: []string{"fn", "p", "q", "r"}, Body: ast.Call{Fn: "fn", Args: []ast.Node{name("p"), name("q"), name("r")}}}})
 	nf := r.Range(1, 2)
 	for i := 0; i < nf; i++ {
 		fn := s.fresh("zt")
@@ -186,7 +195,13 @@ func ScopeProgram(r *core.Rng) []ast.Node {
 			res := s.fresh("zq")
 			snap := s.fresh("zg")
 			stmts = append(stmts, ast.Assign{Name: snap, Value: s.snapshot()})
-			stmts = append(stmts, ast.Assign{Name: res, Value: ast.Call{Fn: cur, Args: args}})
+			if r.Chance(1, 2) && len(args) <= 3 {
+				// through a plain function that defines no closure itself
+				w := []string{"zcz", "zco", "zct", "zch"}[len(args)]
+				stmts = append(stmts, ast.Assign{Name: res, Value: ast.Call{Fn: w, Args: append([]ast.Node{name(cur)}, args...)}})
+			} else {
+				stmts = append(stmts, ast.Assign{Name: res, Value: ast.Call{Fn: cur, Args: args}})
+			}
 			stmts = append(stmts, ast.If{Cond: ast.Binary{Op: "!=", L: name(snap), R: s.snapshot()}, Then: call("write", ast.StrLit{V: "DIFF:globals changed by " + cur})})
 			// overwrite the dead frames, then dig out the escaped closure and call it
 			stmts = append(stmts, call("zdeep", ast.IntLit{V: int64(r.Range(5, 200))}))
